@@ -18,6 +18,7 @@ import (
 	"context"
 	"errors"
 	"fmt"
+	"io"
 	"strings"
 	"sync"
 	"time"
@@ -100,7 +101,7 @@ func (t *ncTarget) Get(ctx context.Context, req *sdcpb.GetDataRequest) (*sdcpb.G
 	// execute the GetConfig rpc
 	ncResponse, err := t.driver.GetConfig(source, filterDoc)
 	if err != nil {
-		if strings.Contains(err.Error(), "EOF") {
+		if isConnectionEOF(err) {
 			t.Close()
 			go t.reconnect()
 		}
@@ -214,7 +215,7 @@ func (t *ncTarget) internalSync(ctx context.Context, sc *config.SyncProtocol, fo
 	resp, err := t.Get(ctx, req)
 	if err != nil {
 		log.Errorf("failed getting config: %T | %v", err, err)
-		if strings.Contains(err.Error(), "EOF") {
+		if isConnectionEOF(err) {
 			t.Close()
 			go t.reconnect()
 		}
@@ -295,7 +296,7 @@ func (t *ncTarget) setRunning(source TargetSource) (*sdcpb.SetDataResponse, erro
 	resp, err := t.driver.EditConfig("running", xdoc)
 	if err != nil {
 		log.Errorf("datastore %s failed edit-config: %v", t.name, err)
-		if strings.Contains(err.Error(), "EOF") {
+		if isConnectionEOF(err) {
 			t.Close()
 			go t.reconnect()
 			return nil, err
@@ -354,7 +355,7 @@ func (t *ncTarget) setCandidate(source TargetSource) (*sdcpb.SetDataResponse, er
 	resp, err := t.driver.EditConfig("candidate", xdoc)
 	if err != nil {
 		log.Errorf("datastore %s failed edit-config: %v", t.name, err)
-		if strings.Contains(err.Error(), "EOF") {
+		if isConnectionEOF(err) {
 			t.Close()
 			go t.reconnect()
 			return nil, err
@@ -375,7 +376,7 @@ func (t *ncTarget) setCandidate(source TargetSource) (*sdcpb.SetDataResponse, er
 	// commit the config
 	err = t.driver.Commit()
 	if err != nil {
-		if strings.Contains(err.Error(), "EOF") {
+		if isConnectionEOF(err) {
 			t.Close()
 			go t.reconnect()
 			return nil, err
@@ -393,4 +394,18 @@ func (t *ncTarget) setCandidate(source TargetSource) (*sdcpb.SetDataResponse, er
 		Warnings:  rpcWarnings,
 		Timestamp: time.Now().UnixNano(),
 	}, nil
+}
+
+// isConnectionEOF reports whether err tells that the connection to the device is gone. An rpc-error reply is handed
+// up by the driver as an operation error that quotes the request and the reply; a configured value or an error
+// message that spells EOF is not a dead connection.
+func isConnectionEOF(err error) bool {
+	if errors.Is(err, io.EOF) {
+		return true
+	}
+	msg := err.Error()
+	if strings.HasPrefix(msg, "operation error from input") {
+		return false
+	}
+	return strings.Contains(msg, "EOF")
 }
